@@ -198,7 +198,7 @@ class _Quadrature(torch.autograd.Function):
             # listing tensor_params in the params of quad to make sure it gets
             # the gradient calculated
             dydts = quad(new_fcn, xl, xu, params=(grad_ys, *tensor_params),
-                         fwd_options=ctx.bck_config, bck_options=ctx.bck_config)
+                         bck_options=ctx.bck_config, **ctx.bck_config)
             dydns = [None for _ in range(ctx.param_sep.nnontensors())]
             grad_params = ctx.param_sep.reconstruct_params(dydts, dydns)
 
